@@ -21,6 +21,7 @@ from pathlib import Path
 from common import PY, REPO, setup_repo_import
 
 import c16_transcript as T
+import c16_pyset as PS
 
 ID = "C16"
 GENS = ["c16_tables"]
@@ -158,6 +159,7 @@ class Impl:
         out["ops"] = rec.ops
         n_levels = (max(rec.orders) + 1) if rec.orders else 0
         out["orders"] = [rec.orders.get(i, []) for i in range(n_levels)] or [[1]]
+        out["orders_seen"] = dict(rec.orders)
         return out
 
 
@@ -191,11 +193,20 @@ def model_lines(P_lists, probs, orders, choices, floats=None, bools=None, impl_d
     if floats is not None:
         lines.append("fdraws " + nats(int(v * 2 ** 53) for v in floats))
         lines.append("run float")
+        lines.append("runpy float")
     else:
         lines.append("bdraws " + ("".join("1" if b else "0" for b in bools) or "-"))
         lines.append("run bool")
+        lines.append("runpy bool")
     lines.append("wf " + (impl_dump if impl_dump else "-"))
     return lines
+
+
+RUN, RUNPY, WF = 6, 7, 8  # offsets of the answers inside one model_lines block
+
+
+def parse_orders(text):
+    return [[int(x) for x in o.split(",")] if o else [] for o in text.split(";")] if text else []
 
 
 def parse_run(line):
@@ -460,8 +471,9 @@ def check_c1(ctx, impl, cases):
                          impl=r["error"], model="a model", spec_violated=True, site="RandomUDSServer.randomize")
             continue
         off, lists = ix
-        run = parse_run(out[off + 6])
-        wf = dict(kv.split("=") for kv in out[off + 7].split())
+        run = parse_run(out[off + RUN])
+        runpy = parse_run(out[off + RUNPY])
+        wf = dict(kv.split("=") for kv in out[off + WF].split())
         dump = r["dump"]
         n_sess = dump.count(";") + 1 if dump != "-" else 0
         if n_sess >= 2 or dump.count(",") >= 1:
@@ -491,6 +503,26 @@ def check_c1(ctx, impl, cases):
                 ctx.disagree("c1:rng-stream-not-from-seed", f"draw {bad_at} of randomize is not the stream of Random(str(seed))",
                              case, impl={"op": list(r["ops"][bad_at])}, model="random.Random(str(seed))",
                              spec_violated=False, site="RNG / RandomUDSServer.randomize")
+        # the model as a function of (arguments, draws, choices) alone: CPython's set order is computed (Model/PySet.lean)
+        py_orders = parse_orders(runpy.get("orders", ""))
+        seen = r.get("orders_seen", {})
+        if runpy["dump"] != dump:
+            comp = diff_component(runpy["dump"], dump)
+            ctx.disagree("c1:pymodel-differs:" + comp,
+                         f"model fed with the recorded draws alone (set order computed) does not reproduce server.services ({comp})",
+                         case, impl=dump, model=runpy["dump"], spec_violated=False, site="RandomUDSServer.randomize")
+        elif int(runpy["draws"]) != len(r["floats"]) or int(runpy["choices"]) != len(r["choices"]):
+            ctx.disagree("c1:pymodel-draw-count", "number of draws / choices consumed differs (set order computed)",
+                         case, impl={"draws": len(r["floats"]), "choices": len(r["choices"])},
+                         model={"draws": runpy["draws"], "choices": runpy["choices"]}, spec_violated=False,
+                         site="RandomUDSServer.randomize")
+        elif any(lv >= len(py_orders) or py_orders[lv] != o for lv, o in seen.items()):
+            lv = min(lv for lv, o in seen.items() if lv >= len(py_orders) or py_orders[lv] != o)
+            ctx.disagree("c1:pymodel-level-order", f"iteration order of level_sessions at level {lv} differs from the PySet model",
+                         case, impl={"level": lv, "order": seen[lv]},
+                         model={"orders": py_orders}, spec_violated=False, site="RandomUDSServer.randomize")
+        if any(len(o) > 1 for o in py_orders):
+            ctx.kind("pyset-order:" + ("some-level-not-sorted" if any(o != sorted(o) for o in py_orders) else "sorted"))
         if run["dump"] != dump:
             comp = diff_component(run["dump"], dump)
             ctx.disagree("c1:model-differs:" + comp, f"model fed with the recorded draws does not reproduce server.services ({comp})",
@@ -632,11 +664,193 @@ def check_c2(ctx, impl, c1_cases, c1_results):
                 "answers_head": ref["runs"][0].get("answers", [])[:12]})
 
 
+# ------------------------------------------------------------------------------------------------------------
+# (P) the Lean model of CPython's set against the real set
+# ------------------------------------------------------------------------------------------------------------
+def pyset_first_mismatch(ctx, programs):
+    """-> per program: None | (index of the first op whose observation differs, impl, model)"""
+    batch, spans = [], []
+    for ops in programs:
+        spans.append((len(batch) + 1, len(ops)))
+        batch.append("reset")
+        batch += [PS.lean_line(op) for op in ops]
+    out = ctx.lean(batch)
+    res = []
+    for ops, (off, n) in zip(programs, spans):
+        exp = PS.run_program(ops)
+        hit = None
+        for i in range(n):
+            got = PS.strip_fill(out[off + i])
+            if got != exp[i]:
+                hit = (i, exp[i], got)
+                break
+        res.append(hit)
+    return res
+
+
+def pyset_shrink(ctx, ops):
+    """greedy: cut after the first mismatch, then drop single ops while a mismatch remains (two passes, fixed order)"""
+    hit = pyset_first_mismatch(ctx, [ops])[0]
+    if hit is None:
+        return ops, None
+    ops = ops[: hit[0] + 1]
+    for _ in range(2):
+        cands = [ops[:i] + ops[i + 1:] for i in range(len(ops) - 1)]
+        if not cands:
+            break
+        hits = pyset_first_mismatch(ctx, cands)
+        better = [(c[: h[0] + 1], h) for c, h in zip(cands, hits) if h is not None]
+        if not better:
+            break
+        ops, hit = min(better, key=lambda ch: (len(ch[0]), json.dumps(ch[0])))
+    # shrink list arguments
+    for _ in range(2):
+        cands = []
+        for i, op in enumerate(ops):
+            if op[0] in ("from", "update") and len(op[2]) > 1:
+                for j in range(len(op[2])):
+                    o2 = list(op)
+                    o2[2] = op[2][:j] + op[2][j + 1:]
+                    cands.append(ops[:i] + [o2] + ops[i + 1:])
+        cands = cands[:400]
+        if not cands:
+            break
+        hits = pyset_first_mismatch(ctx, cands)
+        better = [(c[: h[0] + 1], h) for c, h in zip(cands, hits) if h is not None]
+        if not better:
+            break
+        ops, hit = min(better, key=lambda ch: (sum(len(o[2]) for o in ch[0] if o[0] in ("from", "update")), json.dumps(ch[0])))
+    return ops, hit
+
+
+def pyset_report(ctx, ops, label):
+    ops, hit = pyset_shrink(ctx, ops)
+    if hit is None:
+        return
+    i, impl, model = hit
+    ctx.disagree("pyset:model-differs:" + ops[i][0],
+                 f"Lean model of CPython's set differs from the real set after op {i} ({ops[i][0]}) [{label}]: iteration order, "
+                 "len or table size", {"kind": "pyset", "ops": ops}, impl=impl, model=model, spec_violated=False,
+                 site="CPython Objects/setobject.c vs lean/Gallia/Model/PySet.lean")
+
+
+def check_pyset(ctx):
+    rng = ctx.rng
+    # --- exhaustive: every add/discard sequence over small colliding universes, compared after every op -------------
+    walks = [
+        ("mask7", [], [0, 8, 16, 24, 32, 1], ctx.pick(5, 6), ("add", "discard")),       # all collide in the small table; 5th insert resizes
+        ("mask31", [0, 1, 2, 3, 4], [32, 64, 96, 22, 23, 54, 5], ctx.pick(4, 5), ("add", "discard")),  # linear-probe window and its edge (i=22/23)
+        ("grow", [], [0, 8, 1, 9, 2, 10, 3, 11], ctx.pick(6, 7), ("add",)),                   # insertion orders through the first resize
+    ]
+    n_nodes = 0
+    for name, init, univ, depth, kinds in walks:
+        lines, expected, paths = PS.exhaustive_walk(init, univ, depth, kinds)
+        out = ctx.lean(["reset"] + lines)[1:]
+        n_nodes += len(lines)
+        ctx.ev(len(lines))
+        ctx.kind(*["pyset:exhaustive:" + name] * 1)
+        ctx.dist["pyset:exhaustive:" + name] += len(lines) - 1
+        for k, (o, e) in enumerate(zip(out, expected)):
+            if PS.strip_fill(o) != e:
+                pyset_report(ctx, PS.program_of(init, paths, k), "exhaustive:" + name)
+                break
+    # --- exhaustive: binary operations on every ordered pair of sets built from lists of length <= 3 ------------------
+    import itertools
+
+    u2 = [0, 8, 16, 1, 9] + ([24] if not ctx.quick or ctx.widened else [])
+    lists = [list(t) for n in range(4) for t in itertools.product(u2, repeat=n)]
+    progs = []
+    for A in lists:
+        for B in lists:
+            progs.append([["from", 0, A, 0], ["from", 1, B, 0], ["sub", 2, 0, 1], ["or", 3, 0, 1], ["isub", 0, 1],
+                          ["from", 0, A, 0], ["ior", 0, 1], ["copy", 4, 0, 0]])
+    for lo in range(0, len(progs), 4000):
+        chunk = progs[lo: lo + 4000]
+        for ops, hit in zip(chunk, pyset_first_mismatch(ctx, chunk)):
+            if hit is not None:
+                pyset_report(ctx, ops, "exhaustive:pairs")
+                break
+    n_pairs = len(progs)
+    ctx.ev(n_pairs)
+    ctx.dist["pyset:exhaustive:pairs"] += n_pairs
+    ctx.exhaustive_parts.append(
+        f"PySet vs CPython set: every add/discard sequence of length <= {walks[0][3]} over {walks[0][2]} from set(), of length <= "
+        f"{walks[1][3]} over {walks[1][2]} from set(range(5)), every add sequence of length <= {walks[2][3]} over {walks[2][2]} "
+        f"({n_nodes} states, list / len / table size compared after every op); a - b, a | b, a -= b, a |= b, copy for every ordered "
+        f"pair of sets built from the lists of length <= 3 over {u2} ({n_pairs} pairs)")
+    # --- random and adversarial programs ---------------------------------------------------------------------------------
+    progs, labels = [], []
+    names = list(PS.UNIVERSES)
+    for k in range(ctx.pick(240, 4000)):
+        u = names[k % len(names)]
+        progs.append(PS.random_program(rng, ctx.pick(150, 300), u))
+        labels.append("pyset:random:" + u)
+    for _ in range(ctx.pick(600, 6000)):
+        progs.append(PS.randomize_shaped_program(rng))
+        labels.append("pyset:randomize-shaped")
+    n_ops = 0
+    for lo in range(0, len(progs), 500):
+        chunk = progs[lo: lo + 500]
+        for ops, lab, hit in zip(chunk, labels[lo: lo + 500], pyset_first_mismatch(ctx, chunk)):
+            ctx.ev()
+            ctx.kind(lab)
+            n_ops += len(ops)
+            ctx.nontrivial(("pyset", json.dumps(ops)))
+            if hit is not None:
+                pyset_report(ctx, ops, lab)
+    ctx.traces_validated += len(progs)
+    ctx.notes["pyset"] = {"exhaustive_states": n_nodes, "exhaustive_pairs": n_pairs, "random_programs": len(progs),
+                          "random_ops": n_ops, "interpreter": sys.version.split()[0]}
+
+
+def check_default_optional_services(ctx, impl):
+    """`RandomnessParameters.optional_services` defaults to list(set(UDSIsoServices) - set(mandatory + [NegativeResponse])):
+    a set of IntEnum members (hash = int value) - its order must be the PySet model's"""
+    from gallia.services.uds.core.constants import UDSIsoServices
+
+    P = impl.S.RandomUDSServer.RandomnessParameters()
+    allsv = [int(x) for x in UDSIsoServices]
+    mand = [int(x) for x in P.mandatory_services]
+    neg = int(UDSIsoServices.NegativeResponse)
+    out = ctx.lean(["reset", f"defopt {nats(allsv)} {nats(mand)} {neg}"])[1]
+    real = [int(x) for x in P.optional_services]
+    ctx.ev()
+    ctx.kind("pyset:default-optional-services")
+    hashes_ok = all(hash(x) == int(x) for x in UDSIsoServices)
+    if not hashes_ok:
+        ctx.disagree("c2:enum-hash-not-int", "UDSIsoServices members do not hash like their int value: the order of the default "
+                     "optional_services (a list made from a set) may depend on PYTHONHASHSEED",
+                     {"kind": "c2", "env": {"PYTHONHASHSEED": "1", "import_order": 0, "clock_base": 0.0}, "configs": []},
+                     impl=[hash(x) for x in UDSIsoServices][:8], model="hash(member) == int(member)", spec_violated=False,
+                     site="RandomUDSServer.RandomnessParameters")
+    if out != nats(real):
+        ctx.disagree("pyset:default-optional-services", "order of the default RandomnessParameters.optional_services differs from "
+                     "list(set(UDSIsoServices) - set(mandatory_services + [NegativeResponse])) as computed by the PySet model",
+                     {"kind": "pyset", "ops": [["from", 0, allsv, 0], ["from", 1, mand + [neg], 0], ["sub", 2, 0, 1]]},
+                     impl=real, model=out, spec_violated=False, site="RandomUDSServer.RandomnessParameters")
+
+
+def replay_pyset(ctx, c):
+    ops = c["ops"]
+    exp = PS.run_program(ops)
+    out = ctx.lean(["reset"] + [PS.lean_line(op) for op in ops])[1:]
+    bad = False
+    for op, e, o in zip(ops, exp, out):
+        same = PS.strip_fill(o) == e
+        bad |= not same
+        print(("   " if same else "!! "), json.dumps(op))
+        print("      CPython:", e)
+        print("      model  :", o)
+    return bad
+
+
 def run(ctx):
     impl = Impl()
     ALL = all_services()
     ctx.rule = ("C1: one case = (seed, RandomnessParameters) or (scripted draw stream, arguments); counted as non-trivial when "
                 "the resulting model has >= 2 sessions or >= 2 services. C2: one evaluation = one (configuration, environment) transcript")
+    check_pyset(ctx)
+    check_default_optional_services(ctx, impl)
     cases = scripted_cases(ctx) + seeded_cases(ctx, ALL)  # small universes first: first disagreement per key is small
     results = check_c1(ctx, impl, cases)
     ok = [(c, r) for c, r in zip(cases, results) if r["error"] is None and c.get("script") is None]
@@ -656,6 +870,8 @@ def run(ctx):
 
 def replay(ctx, case):
     c = case.get("case", case)
+    if c.get("kind") == "pyset":
+        return replay_pyset(ctx, c)
     impl = Impl()
     if c.get("kind") == "c2":
         cfgs = c.get("configs", [])
@@ -677,10 +893,12 @@ def replay(ctx, case):
     else:
         ml = model_lines(lists, probs, r["orders"], r["choices"], floats=r["floats"], impl_dump=r["dump"])
     out = ctx.lean(ml)
-    print("implementation:", r["dump"])
-    print("model         :", out[6])
-    print("wf(impl model):", out[7])
-    return parse_run(out[6])["dump"] != r["dump"] or "=0" in out[7]
+    print("implementation      :", r["dump"])
+    print("model (order given) :", out[RUN])
+    print("model (draws alone) :", out[RUNPY])
+    print("recorded set orders :", r.get("orders_seen"))
+    print("wf(impl model)      :", out[WF])
+    return (parse_run(out[RUN])["dump"] != r["dump"] or parse_run(out[RUNPY])["dump"] != r["dump"] or "=0" in out[WF])
 
 
 MANIFEST = {
